@@ -118,6 +118,12 @@ func (k *wk) send(v any) {
 	k.out.Flush()
 }
 
+// begin announces a call, with the CPU time the process has used so far (the
+// parent tells a starved call from a hanging one by the CPU it has burnt).
+func (k *wk) begin(name, arg string) {
+	k.send(map[string]any{"b": name, "a": arg, "cpu": int64(cpuNow() / time.Microsecond)})
+}
+
 func cpuNow() time.Duration {
 	var ru syscall.Rusage
 	if err := syscall.Getrusage(syscall.RUSAGE_SELF, &ru); err != nil {
@@ -229,7 +235,7 @@ func (k *wk) call(name, arg string, n int, gets *int, f func() (proj []string, e
 	if k.skip[name] || k.skip[name+" "+arg] {
 		return "skipped"
 	}
-	k.send(map[string]string{"b": name, "a": arg})
+	k.begin(name, arg)
 	if gets != nil {
 		*gets = 0
 	}
@@ -251,7 +257,7 @@ func (k *wk) callEach(name string, n int, gets *int, each func(i int)) {
 	if k.skip[name] {
 		return
 	}
-	k.send(map[string]string{"b": name, "a": ""})
+	k.begin(name, "")
 	if gets != nil {
 		*gets = 0
 	}
@@ -722,6 +728,11 @@ func WorkerMain() {
 	if os.Getenv("C05_DEFAULT_STACK") == "" {
 		debug.SetMaxStack(16 << 20)
 	}
+	// An endless loop that also allocates must not take the machine down: the
+	// address space is capped, the runtime then dies with "out of memory"
+	// (a fatal outcome, like the stack overflow).
+	lim := uint64(6 << 30)
+	_ = syscall.Setrlimit(syscall.RLIMIT_AS, &syscall.Rlimit{Cur: lim, Max: lim})
 	in := bufio.NewReaderSize(os.Stdin, 1<<20)
 	dec := json.NewDecoder(in)
 	k := &wk{out: bufio.NewWriterSize(os.Stdout, 1<<16)}
@@ -808,6 +819,8 @@ func (k *wk) runCalib(c *CalibSpec) {
 			}
 		case "block":
 			select {}
+		case "sleep":
+			time.Sleep(time.Hour)
 		case "leak":
 			ch := make(chan int)
 			go func() { <-ch }()
